@@ -1,5 +1,6 @@
 import IrefVerif.Lemmas.ValidWF
 import IrefVerif.Model.Reference
+import IrefVerif.Lemmas.Accessors
 
 /-!
 # C02 — component accessors return the RFC 3986 generic-syntax decomposition
@@ -39,23 +40,7 @@ theorem split_recompose (P : Spec.Parts) (wf : WF P) : split (recompose P) = P :
 /-! ## the individual accessors agree with the all-at-once decomposition -/
 
 theorem findSchemeGo_eq (w : Text) :
-    findSchemeGo w = if fdc w then some (spanLen nCSQH w) else none := by
-  induction w with
-  | nil => rfl
-  | cons c w ih =>
-    by_cases hd : (c == cSlash || c == cQuest || c == cHash) = true
-    · have hc : (c == cColon) = false := by
-        rcases (by simpa using hd : (c = cSlash ∨ c = cQuest) ∨ c = cHash) with (rfl | rfl) | rfl <;> rfl
-      simp [findSchemeGo, fdc, hd, hc]
-    · have hd' : (c == cSlash || c == cQuest || c == cHash) = false := by simpa using hd
-      by_cases hc : (c == cColon) = true
-      · simp [findSchemeGo, fdc, hd', hc, spanLen, nCSQH]
-      · have hc' : (c == cColon) = false := by simpa using hc
-        have hn : nCSQH c = true := by
-          simp only [Bool.or_eq_false_iff] at hd'
-          simp [nCSQH, hc', hd'.1.1, hd'.1.2, hd'.2]
-        simp only [findSchemeGo, fdc, hd', hc', Bool.false_eq_true, if_false, ih, spanLen, hn, if_true]
-        split <;> simp
+    findSchemeGo w = if fdc w then some (spanLen nCSQH w) else none := Lemmas.findSchemeGo_eq w
 
 /-- `scheme()` (through `find_scheme`) is the scheme of the decomposition -/
 theorem scheme_accessor (w : Text) (hw : w.head? ≠ some cColon) :
@@ -112,6 +97,30 @@ theorem full_iff_scheme (G : Grammar) (ok : Grammar.Ok G) (w : Text) :
   · rintro ⟨h, hs⟩
     obtain ⟨hv, _⟩ := split_valid G ok w h
     exact (full_iff G w).mpr ⟨split w, hs, Lemmas.recompose_split w, hv⟩
+
+/-! ## offsets: `parts()` and the ten stand-alone accessors land on the same ranges -/
+
+/-- **for every valid reference (either family), the model of `reference_parts` and of each
+re-scanning accessor returns the explicit offsets of the Appendix-B components**: scheme at 0,
+authority two octets after the scheme's `:`, path right after, query and fragment one octet
+after their delimiters — consecutive, ordered, non-overlapping (C20 uses this too). -/
+theorem accessor_offsets (G : Grammar) (ok : Grammar.Ok G) (w : Text) (h : RE.Matches G.reference w) :
+    reference_parts w 0 = rangesOf (split w) ∧
+    find_scheme w 0 = (rangesOf (split w)).scheme ∧
+    (find_authority w 0).toOption = (rangesOf (split w)).authority ∧
+    find_path w 0 = (rangesOf (split w)).path ∧
+    (find_query w 0).toOption = (rangesOf (split w)).query ∧
+    (find_fragment w 0).toOption = (rangesOf (split w)).fragment := by
+  obtain ⟨_, wf⟩ := split_valid G ok w h
+  have hw := Lemmas.recompose_split w
+  have h1 := reference_parts_recompose (split w) wf
+  have h2 := find_scheme_recompose (split w) wf
+  have h3 := find_authority_recompose (split w) wf
+  have h4 := find_path_recompose (split w) wf
+  have h5 := find_query_recompose (split w) wf
+  have h6 := find_fragment_recompose (split w) wf
+  rw [hw] at h1 h2 h3 h4 h5 h6
+  exact ⟨h1, h2, h3, h4, h5, h6⟩
 
 /-- non-vacuity: a reference with every component present, and one with empty-but-present ones -/
 example : modelRefParts [0x73, 0x3A, 0x2F, 0x2F, 0x68, 0x2F, 0x70, 0x3F, 0x71, 0x23, 0x66]
